@@ -224,7 +224,7 @@ def gen_big_record_case(rng, cid):
         ops.append({"op": "open", "k": k, "d": 0, "t": t, "req": req})
         nw = rng.randint(2, 4)
         for w in range(nw):
-            big = 0 if w == 0 else rng.choice([66000, 90000, 140000, 300000])
+            big = 0 if w == 0 else rng.choice([66000, 90000, 140000, 300000, 1100000, 2200000])
             ops.append({"op": "write", "k": k, "req": req, "p": "p%d" % pay, "st": 1 if w < nw - 1 else rng.choice([2, 4]), "big": big}); pay += 1
         ops.append({"op": "abandon" if (run == 1 or rng.random() < 0.3) else "close", "k": k})
         k += 1
